@@ -9,7 +9,7 @@ TECHNIQUE = ('runtime monitoring: the real split_and() is driven on generated bo
              'evaluator (conjunction of the parts vs the input on complete truth tables and small domains incl. the '
              'empty one) + shape predicates on every returned part + ValueError licence')
 RULE = ('Boolean expressions and predicates: exhaustive propositional-plus-quantifier grammar (not, and, or, implies, '
-        'forall, exists over atoms p, q, True, False, r(@i), s(@i); <= 2 connectives fully and 3 sampled in quick, <= 3 '
+        'forall, exists over atoms p, q, True, False, r(@i), s(@i), zs[@i] > 0; <= 2 connectives fully and 3 sampled in quick, <= 3 '
         'fully in thorough) and random typed terms biased to conjunctions under negations, implications and nested '
         'quantifiers. Valuations: complete truth tables x array domains {[], [0], [0,1], [1,2]}, set and range domains '
         'incl. empty ranges. Non-trivial = >= 2 parts or a transformed part; distinct = input shape.')
@@ -26,7 +26,8 @@ BUDGET = {'quick': {'random': 20000, 'k3_sample': 0.1, 'envs': 16},
           'thorough': {'random': 900000, 'k3_sample': 1.0, 'envs': 32}}
 TIMEOUT = {'quick': 900, 'thorough': 7200}
 
-THIS = ('msg', {'p': gen.BOOL, 'q': gen.BOOL, 'xs': ('arr', gen.NUM, -1), 'ys': ('arr', gen.NUM, -1), 'x': gen.NUM}, {})
+THIS = ('msg', {'p': gen.BOOL, 'q': gen.BOOL, 'xs': ('arr', gen.NUM, -1), 'ys': ('arr', gen.NUM, -1), 'x': gen.NUM,
+                'zs': ('arr', gen.NUM, -1)}, {})
 ATOMS0 = (A.fld('p'), A.fld('q'), A.boolean(True), A.boolean(False))
 DOMAINS = (A.fld('xs'), A.fld('xs'), A.fld('ys'), ('set', (A.num('0'), A.num('1'))),
            ('range', A.num('0'), A.num('1'), False, False), ('range', A.num('0'), A.num('1'), True, True),
@@ -38,6 +39,8 @@ def atoms(scope):
     for v in scope:
         out.append(('bin', '>', A.var(v), A.num('0')))
         out.append(('bin', '<', A.var(v), A.num('1')))
+        # the bound variable occurring only inside an index (zs has three members on the whole grid)
+        out.append(('bin', '>', ('index', A.fld('zs'), A.var(v)), A.num('0')))
     return out
 
 
@@ -77,7 +80,7 @@ def grid(rng, n_random=0):
     for p in (True, False):
         for q in (True, False):
             for xs in ([], [0], [0, 1], [1, 2]):
-                envs.append(E.Env({'p': p, 'q': q, 'xs': xs, 'ys': [] if xs else [1], 'x': len(xs)}, {}))
+                envs.append(E.Env({'p': p, 'q': q, 'xs': xs, 'ys': [] if xs else [1], 'x': len(xs), 'zs': [1, 0, 2]}, {}))
     return envs
 
 
